@@ -268,19 +268,28 @@ class SymbolicExpression(Generic[T], ABC):
         ...
 
     def _evaluate_as_my_value_(self, expression: SymbolicExpression, bindings: Dict[int, HashedValue],
-                               yield_when_false: bool = False) -> List[Dict[int, HashedValue]]:
+                               yield_when_false: bool = False) -> Iterable[Dict[int, HashedValue]]:
         """
         The bindings of an expression that this node uses as a VALUE (what it selects, an argument, the collection it
-        concatenates, the values it quantifies over) under the given row. The same expression object can stand in
-        condition position somewhere else (where it was false under this row and another side of a disjunction made the
-        row): here it is evaluated as a child of this node, and handed back as it was found before the conditions go on.
+        concatenates, the values it quantifies over) under the given row, produced one at a time. The same expression
+        object can stand in condition position somewhere else (where it was false under this row and another side of a
+        disjunction made the row): while it produces a value here it is a child of this node, in between it is handed
+        back as it was found, because the conditions go on between two values.
         """
-        previous_parent = expression._eval_parent_
-        expression._eval_parent_ = self
+        values = expression._evaluate__(bindings, yield_when_false=yield_when_false)
         try:
-            return list(expression._evaluate__(bindings, yield_when_false=yield_when_false))
+            while True:
+                previous_parent = expression._eval_parent_
+                expression._eval_parent_ = self
+                try:
+                    value = next(values)
+                except StopIteration:
+                    return
+                finally:
+                    expression._eval_parent_ = previous_parent
+                yield value
         finally:
-            expression._eval_parent_ = previous_parent
+            values.close()
 
     def _is_duplicate_output_(self, output: Dict[int, HashedValue]) -> bool:
         required_vars = self._parent_._required_variables_from_child_(self, when_true=not self._is_false_)
@@ -819,7 +828,7 @@ class SetOf(QueryObjectDescriptor[T]):
         for sol in sol_gen:
             sol.update(sources)
             if self.selected_variables:
-                var_val = {var._id_: self._evaluate_as_my_value_(var, sol, self._yield_when_false_)[0][var._id_]
+                var_val = {var._id_: next(self._evaluate_as_my_value_(var, sol, self._yield_when_false_))[var._id_]
                            for var in self.selected_variables if var._id_ in sol}
                 sol.update(var_val)
                 yield sol
